@@ -321,8 +321,17 @@ impl World {
 		}
 		for (r, depth) in plan.reorgs.iter() {
 			if *r == round {
-				let d = (*depth).clamp(1, 5);
-				if self.do_reorg(d, true, d + 1) {
+				// depth + 100: the transactions of the vanished blocks do not return to the mempool
+				// (whoever still needs them has to broadcast them again)
+				let readmit = *depth < 100;
+				let d = (*depth % 100).clamp(1, 5);
+				if !readmit {
+					self.out.bump("fault:reorged_transactions_dropped_from_the_mempool");
+				}
+				self.readmit_foreign = true;
+				let done = self.do_reorg(d, readmit, d + 1);
+				self.readmit_foreign = false;
+				if done {
 					self.out.bump("fault:reorg_during_onchain_resolution");
 					for n in 0..self.nodes.len() {
 						self.do_sync(n, 255);
